@@ -58,8 +58,10 @@ def make_env(em):
     }
 
 
-def css(em, env, abbr, cache=None, options=None, snippets=None):
+def css(em, env, abbr, cache=None, options=None, snippets=None, context=None):
     cfg = {'type': 'stylesheet'}
+    if context:
+        cfg['context'] = {'name': context}
     if cache:
         cfg['cache'] = env[cache]
     if options:
@@ -87,6 +89,11 @@ OPS = [
     ('css_user_pt', lambda em, e: css(em, e, 'gp', 'C2', {'stylesheet.intUnit': 'pt'}, USER_SNIPPETS)),
     ('css_nouser', lambda em, e: css(em, e, 'mten+gp', 'C2')),
     ('css_nocache', lambda em, e: css(em, e, 'zom+p10+mten')),
+    ('css_section', lambda em, e: css(em, e, '@kf+m10', 'C1', None, None, '@@section')),
+    ('css_property', lambda em, e: css(em, e, '@kf+m10', 'C1', None, None, '@@property')),
+    ('css_value', lambda em, e: css(em, e, 'c+fs', 'C1', None, None, 'align-content')),
+    ('css_sass_json', lambda em, e: em.expand('p10+bgc#f', {'type': 'stylesheet', 'syntax': 'sass', 'cache': e['C1'],
+                                                             'options': {'stylesheet.json': True}})),
     ('m_cachekey', lambda em, e: em.expand('ul>li', {'cache': e['C1']})),
 ]
 OPNAMES = [o[0] for o in OPS]
